@@ -38,7 +38,7 @@ def register(fixed, known):
               "(= (f a b a) v) keeps the multiplicity but not the positions of a repeated argument: written back as (f a a b)", kf1, "fixes/demos.py K1b")
     known("C10", "C10.dupkeys", "lisp_parsers.trajectory_parser", "TrajectoryParser.parse_grounded_numeric_fluent", "dict-key-position:grounded_numeric_fluent",
           "same as the problem parser (after the fix that added the bookkeeping)", kf1, "fixes/demos.py K1b")
-    known("C20", "C20.dupkeys", "models.grounding_utils", "_iterate_calc_tree_and_ground", "dict-key-store:grounded_signature",
+    known("C20", "C20.dupkeys", "models.grounding_utils", "ground_numeric_calculation_tree", "dict-key:parameters_map",
           "a call with a repeated object grounds (dist ?a ?b) to (dist c0)", kf1, "fixes/demos.py K1")
     kf2 = ("repairing it means rewriting the condition evaluator (attach nested / universal conditions, operator identities, arm order, nested "
            "quantifier grounding) -- one coherent rewrite of ~100 lines, not a small patch")
